@@ -173,7 +173,41 @@ def _cols(cx, b, e, key, cols_pat):
     return out
 
 
+
+def mean_point_rules(cx):
+    """the two centres that SvdBasis::from_points subtracts: sum / count, and weighted sum / total WEIGHT"""
+    from vpa import term as T
+    for fn, weighted in (('common::points::mean_point', False), ('common::points::mean_point_weighted', True)):
+        b = cx.fn(fn)
+        if not b:
+            continue
+        short = fn.split('::')[-1]
+        r = cx.retval(b)
+        e = match('(call OPoint::from (call Matrix::div $s $t))', r)
+        ok = e is not None
+        found = show(r)[:300]
+        if ok:
+            dag = b.dag()
+            ls = [x for x in subterms(e['s']) if x[0] == 'loop']
+            cs = simplify(dag.carried(ls[0][1], ls[0][2])) if len(ls) == 1 else None
+            if weighted:
+                Z = '(itervar (call Iterator::zip (param points) (param weights)))'
+                ok = cs is not None and match(f'(mut Matrix::add_assign . (phi (call Matrix::zeros) (loop)) (call Matrix::mul (field coords (field 0 {Z})) (field 1 {Z})))', cs) is not None
+                lt = [x for x in subterms(e['t']) if x[0] == 'loop']
+                ct = simplify(dag.carried(lt[0][1], lt[0][2])) if len(lt) == 1 else None
+                ok = ok and match('(phi 0.0 (loop))', e['t']) is not None and ct is not None and match(f'(add (field 1 {Z}) (phi 0.0 (loop)))', ct) is not None
+                found = f'sum: {show(cs)[:200] if cs else None}; divisor: {show(e["t"])[:120]} carried {show(ct)[:160] if ct else None}'
+            else:
+                ok = cs is not None and match('(mut Matrix::add_assign . (phi (call Matrix::zeros) (loop)) (field coords (itervar (param points))))', cs) is not None and \
+                    match('(cast f64 (len (param points)))', e['t']) is not None
+                found = f'sum: {show(cs)[:200] if cs else None}; divisor: {show(e["t"])[:120]}'
+            okx, why = T.exhaustive_loops(cx, b)
+            ok = ok and okx
+        cx.ob('EXPR', short, ok, ('the weighted mean is (sum of p_i * w_i) / (sum of w_i), both sums over EVERY (point, weight) pair: scaling all weights by one factor leaves it unchanged'
+                                   if weighted else 'the mean is (sum of p_i) / n over EVERY point'), where=b.file, found=found)
+
 def run(cx):
+    mean_point_rules(cx)
     # ---------------------------------------------------------------- AXIS
     n = 0
     for a in AX:
